@@ -91,6 +91,9 @@ pub struct C40Case {
     /// verdict for the k-th incoming seen by the filter (last repeats); None = no filter
     pub filter: Option<Vec<Verdict>>,
     pub dials: Vec<Dial>,
+    /// dials overlap (each starts `gap_ms` after the previous one started) instead of running one after the other
+    #[serde(default)]
+    pub concurrent: bool,
     pub seed: u64,
 }
 
@@ -152,7 +155,7 @@ impl Typed for C40 {
                 gap_ms: rng.range(0, 50),
             })
             .collect();
-        C40Case { net: gen_net(rng), registered, filter, dials, seed: rng.next_u64() }
+        C40Case { net: gen_net(rng), registered, filter, dials, concurrent: rng.coin(), seed: rng.next_u64() }
     }
 
     fn exec_case(&self, case: &C40Case, ctx: &Ctx) {
@@ -206,32 +209,46 @@ impl Typed for C40 {
                 }
             }
             // results per dial: Ok(negotiated alpn) | Err(kind)
-            let mut results: Vec<Result<Vec<u8>, String>> = vec![];
+            let results_cell: Arc<Mutex<Vec<Option<Result<Vec<u8>, String>>>>> = Arc::new(Mutex::new(vec![None; case.dials.len()]));
+            let mut dial_tasks = vec![];
             for (i, d) in case.dials.iter().enumerate() {
                 tokio::time::sleep(Duration::from_millis(d.gap_ms)).await;
-                let ep = &clients[d.client as usize];
+                let ep = clients[d.client as usize].clone();
                 let first = alpn(d.alpns[0]);
                 let extra: Vec<Vec<u8>> = d.alpns[1..].iter().map(|a| alpn(*a)).collect();
                 let opts = ConnectOptions::new().with_additional_alpns(extra);
                 ctx.ev(format!("dial {i} client{} alpns={:?}", d.client, d.alpns));
-                let fut = async {
-                    let connecting = ep.connect_with_opts(EndpointAddr::new(secret(0).public()), &first, opts).await.map_err(|e| format!("connect: {e:#}"))?;
-                    let conn = connecting.await.map_err(|e| format!("handshake: {e:#}"))?;
-                    let negotiated = conn.alpn().to_vec();
-                    let mut s = conn.open_uni().await.map_err(|e| format!("open_uni: {e:#}"))?;
-                    s.write_all(&(i as u32).to_le_bytes()).await.map_err(|e| format!("write: {e:#}"))?;
-                    s.finish().map_err(|e| format!("finish: {e:#}"))?;
-                    // wait for the server's handler to close the connection (or a bounded time)
-                    let _ = tokio::time::timeout(Duration::from_secs(25), conn.closed()).await;
-                    Ok::<Vec<u8>, String>(negotiated)
+                let ctx3 = ctx.clone();
+                let cell = results_cell.clone();
+                let whole = async move {
+                    let fut = async {
+                        let connecting = ep.connect_with_opts(EndpointAddr::new(secret(0).public()), &first, opts).await.map_err(|e| format!("connect: {e:#}"))?;
+                        let conn = connecting.await.map_err(|e| format!("handshake: {e:#}"))?;
+                        let negotiated = conn.alpn().to_vec();
+                        let mut s = conn.open_uni().await.map_err(|e| format!("open_uni: {e:#}"))?;
+                        s.write_all(&(i as u32).to_le_bytes()).await.map_err(|e| format!("write: {e:#}"))?;
+                        s.finish().map_err(|e| format!("finish: {e:#}"))?;
+                        // wait for the server's handler to close the connection (or a bounded time)
+                        let _ = tokio::time::timeout(Duration::from_secs(25), conn.closed()).await;
+                        Ok::<Vec<u8>, String>(negotiated)
+                    };
+                    let r = match tokio::time::timeout(Duration::from_secs(40), fut).await {
+                        Ok(r) => r,
+                        Err(_) => Err("timeout".to_string()),
+                    };
+                    ctx3.ev(format!("dial {i} -> {}", match &r { Ok(a) => format!("established alpn={}", String::from_utf8_lossy(a)), Err(e) => format!("failed ({})", e.split(':').next().unwrap_or("")) }));
+                    cell.lock().unwrap()[i] = Some(r);
                 };
-                let r = match tokio::time::timeout(Duration::from_secs(40), fut).await {
-                    Ok(r) => r,
-                    Err(_) => Err("timeout".to_string()),
-                };
-                ctx.ev(format!("dial {i} -> {}", match &r { Ok(a) => format!("established alpn={}", String::from_utf8_lossy(a)), Err(e) => format!("failed ({})", e.split(':').next().unwrap_or("")) }));
-                results.push(r);
+                if case.concurrent {
+                    dial_tasks.push(tokio::task::spawn_local(whole));
+                } else {
+                    whole.await;
+                }
             }
+            for t in dial_tasks {
+                let _ = tokio::time::timeout(Duration::from_secs(60), t).await;
+            }
+            let results: Vec<Result<Vec<u8>, String>> = results_cell.lock().unwrap().iter().map(|r| r.clone().unwrap_or(Err("timeout".to_string()))).collect();
             net.stop_faults();
             tokio::time::sleep(Duration::from_secs(30)).await;
             yields(8).await;
@@ -585,6 +602,9 @@ impl EndpointHooks for SimHooks {
 #[derive(Clone, Debug, Serialize, Deserialize, PartialEq)]
 pub enum DialKind {
     Normal,
+    /// like Normal, but the dialer converts the attempt to 0-RTT when a session ticket allows it
+    /// and waits for `handshake_completed`
+    ZeroRtt,
     SelfDial,
     EmptyAlpn,
 }
@@ -633,7 +653,7 @@ impl Typed for C42 {
             net: if rng.coin() { NetCfg::default() } else { gen_net(rng) },
             client_hooks: (0..rng.range(0, 3)).map(|_| gen_hook(rng)).collect(),
             server_hooks: (0..rng.range(0, 3)).map(|_| gen_hook(rng)).collect(),
-            dials: (0..rng.range(1, 4)).map(|_| match rng.below(6) { 0 => DialKind::SelfDial, 1 => DialKind::EmptyAlpn, _ => DialKind::Normal }).collect(),
+            dials: (0..rng.range(1, 4)).map(|_| match rng.below(8) { 0 => DialKind::SelfDial, 1 => DialKind::EmptyAlpn, 2 | 3 => DialKind::ZeroRtt, _ => DialKind::Normal }).collect(),
             seed: rng.next_u64(),
         }
     }
@@ -702,18 +722,36 @@ impl Typed for C42 {
                 closed_with: Option<Option<u32>>,
             }
             let mut obs: Vec<DialObs> = vec![];
+            let mut zero_rtt_used = 0u64;
             for (i, kind) in case.dials.iter().enumerate() {
                 let before_packets = net.packets_from(1);
                 let (target, a): (EndpointAddr, Vec<u8>) = match kind {
-                    DialKind::Normal => (EndpointAddr::new(secret(0).public()), dial_alpn(i)),
+                    DialKind::Normal | DialKind::ZeroRtt => (EndpointAddr::new(secret(0).public()), dial_alpn(i)),
                     DialKind::SelfDial => (EndpointAddr::new(secret(1).public()), dial_alpn(i)),
                     DialKind::EmptyAlpn => (EndpointAddr::new(secret(0).public()), vec![]),
                 };
-                let res = tokio::time::timeout(Duration::from_secs(40), client.connect(target, &a)).await;
+                let res: Result<Result<Connection, String>, _> = if *kind == DialKind::ZeroRtt {
+                    let zero_rtt_used = &mut zero_rtt_used;
+                    tokio::time::timeout(Duration::from_secs(40), async {
+                        let connecting = client.connect_with_opts(target, &a, ConnectOptions::new()).await.map_err(|e| format!("{e:#}"))?;
+                        match connecting.into_0rtt() {
+                            Ok(early) => {
+                                *zero_rtt_used += 1;
+                                match early.handshake_completed().await.map_err(|e| format!("{e:#}"))? {
+                                    iroh::endpoint::ZeroRttStatus::Accepted(c) | iroh::endpoint::ZeroRttStatus::Rejected(c) => Ok(c),
+                                }
+                            }
+                            Err(connecting) => connecting.await.map_err(|e| format!("{e:#}")),
+                        }
+                    })
+                    .await
+                } else {
+                    tokio::time::timeout(Duration::from_secs(40), async { client.connect(target, &a).await.map_err(|e| format!("{e:#}")) }).await
+                };
                 let packets = net.packets_from(1) - before_packets;
                 let (established, err) = match &res {
                     Ok(Ok(_)) => (true, String::new()),
-                    Ok(Err(e)) => (false, format!("{e:#}")),
+                    Ok(Err(e)) => (false, e.clone()),
                     Err(_) => (false, "timeout".to_string()),
                 };
                 ctx.ev(format!("dial {i} {kind:?} -> {}", if established { "established" } else { err.split(':').next().unwrap_or("") }));
@@ -753,7 +791,7 @@ impl Typed for C42 {
                         }
                         ctx.count(if *kind == DialKind::SelfDial { "probe.self_dial_refused" } else { "probe.empty_alpn_refused" });
                     }
-                    DialKind::Normal => {
+                    DialKind::Normal | DialKind::ZeroRtt => {
                         let cb = of(0, true);
                         if !of(1, true).is_empty() {
                             ctx.violate("before-connect-hook-called-on-listener", format!("dial {i}"));
@@ -836,6 +874,7 @@ impl Typed for C42 {
             }
             ctx.add("fault.packets_dropped", net.log().iter().filter(|p| p.fate == "dropped").count() as u64);
             ctx.add("fault.packets_duplicated", net.log().iter().filter(|p| p.fate == "duplicated").count() as u64);
+            ctx.add("probe.zero_rtt_attempts", zero_rtt_used);
             if !case.client_hooks.is_empty() || !case.server_hooks.is_empty() {
                 ctx.nontrivial();
             }
